@@ -464,7 +464,9 @@ def main(tier_, replay=None):
                        "first_execution_variables": c["variables"],
                        "resolver_received": run["field"], "directive_hook_received": run["directive"],
                        "directive_response": repr(run["directive_response"])[:1500]})
-    if not disagreements and not directive_disagreements:
+    from . import nestedvars
+    nv_problems, _nv_n = nestedvars.run(rep, "C05")
+    if not disagreements and not directive_disagreements and not nv_problems:
         if not proofs_ok:
             rep.violation({"property": "C05", "what": "proof obligation no longer checks",
                            "file": b.get("failed_file"), "theorem": b.get("failed_lemma"), "gate": gate,
